@@ -86,8 +86,19 @@ RelOK(st, rel) ==
       /\ rel[i] * 100 >= 96 * e
       /\ rel[i] * 100 <= 104 * e
 
+\* C01 (sparse modes): with n distinct coupons out of 2^26 the collision-corrected estimate lies in
+\* [n, n (1 + 1/256)] (n + n^2 / 2^27 to first order), and the upper bound advertises the coupon RSE
+\* 0.409 / 2^13 (49.9 * 10^-6); the estimate is logged in thousandths
+SparseN(st) == IF st.mode = "list" THEN Len(st.list) ELSE st.cnt
+SparseOK(st, o) ==
+  (st.mode # "arr" /\ SparseN(st) > 0 /\ o.e3 >= 0) =>
+     LET n == SparseN(st) IN
+     /\ o.e3 >= 1000 * n
+     /\ o.e3 <= 1000 * n + (1000 * n) \div 256 + 1
+     /\ o.rel[2] >= 48 /\ o.rel[2] <= 52
+
 ObsOK(st, o) ==
-  /\ On("C01") => (NonDecreasing(o.b) /\ RelOK(st, o.rel))
+  /\ On("C01") => (NonDecreasing(o.b) /\ RelOK(st, o.rel) /\ SparseOK(st, o))
   /\ On("C02") => o.emp = IsEmpty(st)
   /\ On("C03") => (~IsEmpty(st) => o.pos)
   /\ On("C18") => o.len = SerLen(st)
